@@ -200,6 +200,15 @@ def with_prelude(cases, rng, every=4, size=None, max_size=250):
         yield case
 
 
+def with_reuse(cases, every=6):
+    """every `every`-th case: the judged operator OBJECT first serves a throw-away pipeline at another nesting depth
+    (windows.observe(reuse=True))"""
+    for n, case in enumerate(cases):
+        if n % every == 4 and len(case.get('items', ())) <= 400:
+            case = dict(case, reuse=True)
+        yield case
+
+
 def prelude_tags(case, out):
     if case.get('prelude'):
         out.tags.append('after-aborted-subscriptions')
